@@ -29,6 +29,13 @@ type AppSnap struct {
 
 func NewAppStore() *AppStore { return &AppStore{cur: &AppSnap{}} }
 
+// FailOnce makes the update in progress (or the next one) fail.
+func (a *AppStore) FailOnce() {
+	a.mu.Lock()
+	a.FailNext++
+	a.mu.Unlock()
+}
+
 func (a *AppStore) Current() *AppSnap {
 	a.mu.Lock()
 	defer a.mu.Unlock()
